@@ -1,6 +1,7 @@
 use crate::{
     expression::ExpressionEvaluator, program::Program, symbol::Symbol, value::Value, Interpreter,
-    InterpreterError, InterpreterOutput, SyntaxError, Token, TracedInterpreterError,
+    InterpreterError, InterpreterOutput, OutOfMemoryError, SyntaxError, Token,
+    TracedInterpreterError,
 };
 
 struct LValue {
@@ -8,16 +9,35 @@ struct LValue {
     array_index: Option<Vec<usize>>,
 }
 
+/// `IF ... THEN IF ... THEN ...` nests statements, and statements are evaluated
+/// recursively. Past this depth we report an out of memory error instead of
+/// running out of native stack.
+pub const MAX_STATEMENT_DEPTH: usize = 64;
+
 pub struct StatementEvaluator<'a> {
     interpreter: &'a mut Interpreter,
+    depth: usize,
 }
 
 impl<'a> StatementEvaluator<'a> {
     pub fn new(interpreter: &'a mut Interpreter) -> Self {
-        StatementEvaluator { interpreter }
+        StatementEvaluator {
+            interpreter,
+            depth: 0,
+        }
     }
 
     pub fn evaluate_statement(&mut self) -> Result<(), TracedInterpreterError> {
+        if self.depth == MAX_STATEMENT_DEPTH {
+            return Err(OutOfMemoryError::StackOverflow.into());
+        }
+        self.depth += 1;
+        let result = self.evaluate_statement_impl();
+        self.depth -= 1;
+        result
+    }
+
+    fn evaluate_statement_impl(&mut self) -> Result<(), TracedInterpreterError> {
         if self.interpreter.enable_tracing {
             if let Some(line_number) = self.program().get_line_number() {
                 self.interpreter
